@@ -371,6 +371,14 @@ pub fn c03(a: &Analysis) -> Vec<Violation> {
 
 pub fn harness_checks(a: &Analysis) -> Vec<String> {
     let mut out = vec![];
+    // Wire transparency of what real entities emit is a self-check of the harness's link only as
+    // long as the entities are fed conforming traffic. Forged datagrams (a damaged copy whose
+    // large-file flag was flipped, delivered into a small-flag transaction) can make a real receiver
+    // build a NAK whose offsets do not fit its own header's file-size flag; that says something
+    // about the receiver's robustness (recorded in DESIGN 14.2), not about the harness.
+    if a.rec.sc.script.iter().any(|e| matches!(e, Entry::Inject { what: crate::scenario::What::Raw(_), .. })) {
+        return out;
+    }
     for s in &a.sends {
         if s.injected {
             continue;
